@@ -9,7 +9,7 @@
 // the thorough tier every pair of the recovery's operations as well. At EVERY
 // quiescent virtual second of every run the statement's invariant is evaluated on
 // every running instance from what it exposes itself (registry, labels, routing
-// table); at the end (two minute ticks after the last fault) both ends of every
+// table); at the end (three minute ticks after the last fault) both ends of every
 // configured pair must agree that they have a link.
 package c16
 
